@@ -7,7 +7,7 @@ from sx.core import Sym
 
 PROPERTY = "C02"
 LEVEL = "model_checking"
-BOUNDS = {"hours_per_series": "N<=3", "usage_patterns": "<=2", "servers": "<=2", "skeletons": "T1,T2,T3,T4,T5,T7",
+BOUNDS = {"hours_per_series": "N<=3", "usage_patterns": "<=2", "servers": "<=2", "skeletons": "T1,T2,T2c (two countries on one network),T3,T4,T5,T7",
           "symbolic": "traffic of every pattern + cost drivers (intensities, PUE, powers, per-request amounts)"}
 ASSUMPTIONS = [
     "inputs non-negative where the class requires it; lifespans and fractions of usage time at their (positive) "
@@ -173,6 +173,7 @@ def plan(tier, seed):
     for sk, n in (("T1", 2), ("T2", 2), ("T3", 2), ("T4", 2), ("T5", 2), ("T7", 3)):
         p.append(("totals", dict(skeleton=sk, n=n, drivers=["intens"])))
     p.append(("totals", dict(skeleton="T3", n=2, drivers=["power", "job"])))
+    p.append(("totals", dict(skeleton="T2c", n=2, drivers=["intens"])))      # two countries on one network
     p.append(("totals", dict(skeleton="T1", n=2, drivers=["capacity"])))
     p.append(("totals", dict(skeleton="T5", n=2, drivers=["intens"], same_names=True)))
     p.append(("totals", dict(skeleton="T3", n=2, drivers=["power"], same_names=True)))
